@@ -68,6 +68,7 @@ void simk_progress(void);             /* something observable changed */
 void simk_advance(ns_t d);            /* scripted slow callback */
 void simk_advance_clamped(ns_t d);    /* env op while blocked */
 int  simk_nthreads(void);
+int  simk_thread_takes_signals(int t);
 int  simk_wait_count(void);
 
 /* simulated signals and processes (simk_sig.c) */
